@@ -314,3 +314,36 @@ class SpaceValidate(_Geno):
       for ln in range(1, 5):
         for vals in itertools.product(range(-1, 3), repeat=ln):
           yield Model(dict(e=e, vals=list(vals)), {})
+
+
+@register
+class SpaceIsConstant(_Geno):
+  """Space.is_constant: true exactly for a space without decision points.
+  (`Choices.validate` uses it to decide whether the chosen candidate may carry
+  child DNA; the validators above take it as the abstract ISCONST.)"""
+  target = f'{GS}:Space.is_constant'
+
+  def inputs(self, b):
+    elems = absobj.ref_seq(b, 'elements', geno.DecisionPoint)
+    self_ = SObj(geno.Space, {'_sym_attributes': SAny('attrs')}, name='self')
+    self_.fields.update(elements=elems)
+    return dict(self=self_), {}
+
+  def setup_policy(self, policy):
+    pass
+
+  def ensures_constant_iff_no_decision_points(self, self_, result):
+    return result == (len(self_.elements) == 0)
+
+  def replay(self, obligation, m):
+    bad = []
+    for v, want in ((pg.Dict(a=1), True), (pg.Dict(a=pg.oneof([1])), False), (pg.Dict(a=pg.oneof([1, 2])), False),
+                    (pg.Dict(a=pg.manyof(2, [1, 1], sorted=True)), False)):
+      got = pg.dna_spec(v).is_constant
+      if got != want:
+        bad.append(f'dna_spec({v!r}).is_constant = {got}, has decision points: {not want}')
+    return dict(outcome='reproduced' if bad else 'not-reproduced', detail='; '.join(bad) or 'agrees')
+
+  def small_models(self):
+    from pyvc.contracts import Model
+    yield Model({}, {})
